@@ -684,6 +684,7 @@ fn needs_copy(ctx: &SyncContext, path: &RootRelativePath, src_details: &EntryDet
 fn confirm_actions(ctx: &mut SyncContext, actions: &mut Actions) -> Result<(), String> {
     // Confirm deletes
     let mut to_remove = vec![]; // Rather than removing things as we go, we remove them at the end
+    let mut blocked = vec![]; // Dest entries which are being kept even though they are in the way of a source entry
     for (path, (entry_to_delete, reason)) in actions.to_delete.iter() {
         let msg = format!(
             "{} needs deleting {}",
@@ -717,12 +718,22 @@ fn confirm_actions(ctx: &mut SyncContext, actions: &mut Actions) -> Result<(), S
             DestEntryNeedsDeletingBehaviour::Skip => {
                 trace!("{msg}. Skipping.");
                 to_remove.push(path.clone());
+                if *reason == DeleteReason::Incompatible {
+                    blocked.push(path.clone());
+                }
             }
             DestEntryNeedsDeletingBehaviour::Delete => (), // Carry on
         }
     }
     for p in to_remove {
         actions.to_delete.remove(&p);
+    }
+    // If a dest entry which is in the way of a source entry is being kept, then that source entry (and anything
+    // inside it) can't be copied. Trying to would fail, or would go through the dest entry if it is a symlink.
+    let blocked_copies: Vec<RootRelativePath> = actions.to_copy.iter().map(|(p, _)| p)
+        .filter(|p| blocked.iter().any(|b| *p == b || p.is_inside(b))).cloned().collect();
+    for p in blocked_copies {
+        actions.to_copy.remove(&p);
     }
 
     // Confirm copies
